@@ -2,25 +2,22 @@
       keeper/{keeper,balance,denom,mt}.go)
 
     Identifiers (class ids, MT ids — hex SHA-256 of "mt-denom-N" / "mt-N" — and bech32 owner
-    addresses) are interned by the harness with numbers that respect the byte order of the real
-    strings; names and data blobs are interned without order.
+    addresses) are numbered by the harness in the byte order of the real strings; names and data
+    blobs are interned.  The class store and the MT store are viewed together as
+    class -> (class record, MT id -> MT record as stored) (the harness reports an MT whose class does
+    not exist).
 
-    ORDER.  [ExportGenesisState] builds the [Owners] list by ranging over three nested Go maps, so
-    the order of owners, of classes per owner and of balances per class is arbitrary (and differs
-    between two exports of one state — a determinism matter, property C11).  [InitGenesis] adds
-    every balance to a per-(class, MT) supply and to a per-(owner, class, MT) balance, which is
-    insensitive to the order.  The genesis is therefore modelled with the owners part FLATTENED to
-    a list of ((owner, class, MT), amount) in ascending key order (the canonical order; the
-    harness sorts the exported JSON this way), and C12's fixpoint clause for MT reads "equal up to
-    the order of the owners part". *)
+    ORDER.  Since "fix: mt genesis export lists owners, denoms and balances in store key order" the
+    [Owners] part of the export is in key order (owner, class, MT); it is modelled flattened to a
+    list of ((owner, class, MT), amount) in that order and compared exactly. *)
 From Irismod Require Export Genesis.Store.
 
-Definition dinfo := (Z * Z * Z)%type.            (* name, owner (actor rank, -1: not an address), data *)
+Definition dinfo := (Z * Z * Z)%type.            (* name, owner (rank, -1: not an address), data *)
 Definition minfo := (Z * Z)%type.                (* data, the Supply field as stored / exported *)
+Definition col := (Z * (dinfo * list (Z * minfo)))%type.
 
 Record state := mkState {
-  denoms : list (Z * dinfo);                     (* class id -> class, ascending *)
-  mts : list ((Z * Z) * minfo);                  (* (class, MT) -> MT record as stored, ascending *)
+  cols : list col;                               (* class id -> (class, MT id -> MT record as stored) *)
   msupply : list ((Z * Z) * Z);                  (* (class, MT) -> supply *)
   dsupply : list (Z * Z);                        (* class -> number of MTs *)
   bals : list ((Z * Z * Z) * Z);                 (* (owner, class, MT) -> amount *)
@@ -29,7 +26,7 @@ Record state := mkState {
 
 Record genesis := mkGenesis {
   g_cols : list ((Z * dinfo) * list (Z * minfo));   (* Collections: class, its MTs (id, (data, supply)) *)
-  g_bals : list ((Z * Z * Z) * Z)                   (* Owners, flattened, canonical order *)
+  g_bals : list ((Z * Z * Z) * Z)                   (* Owners, flattened *)
 }.
 
 #[export] Instance EqDec_state : EqDec state.
@@ -39,22 +36,22 @@ Proof. intros x y. decide equality; apply eq_dec. Defined.
 
 Definition two64 : Z := 18446744073709551616.
 Definition getz {K} `{EqDec K} (k : K) (m : list (K * Z)) : Z := match get k m with Some x => x | None => 0 end.
+Definition bkey (b : (Z * Z * Z) * Z) : Z * Z := (snd (fst (fst b)), snd (fst b)).   (* (class, MT) of a balance *)
 
 (** ** Keeper.ExportGenesisState: classes in store order, each with its MTs in store order and
     the CURRENT supply ([GetMTs] overrides the stored Supply field by [GetMTSupply]) *)
-Definition mts_of (s : state) (d : Z) : list (Z * minfo) :=
-  map (fun e => (snd (fst e), (fst (snd e), getz (fst e) (msupply s))))
-      (filter (fun e => fst (fst e) =? d) (mts s)).
+Definition exp_mts (sup : list ((Z * Z) * Z)) (d : Z) (ms : list (Z * minfo)) : list (Z * minfo) :=
+  map (fun t => (fst t, (fst (snd t), getz (d, fst t) sup))) ms.
 Definition export (s : state) : genesis :=
-  mkGenesis (map (fun e => (e, mts_of s (fst e))) (denoms s)) (bals s).
+  mkGenesis (map (fun c => ((fst c, fst (snd c)), exp_mts (msupply s) (fst c) (snd (snd c)))) (cols s)) (bals s).
 
 (** ** types.ValidateGenesis *)
 (** mtMap1: (class, MT) -> exported supply; a later duplicate overwrites *)
-Definition mt_map1 (cols : list ((Z * dinfo) * list (Z * minfo))) : list ((Z * Z) * Z) :=
-  fold_left (fun m c => fold_left (fun m' t => set (fst (fst c), fst t) (snd (snd t)) m') (snd c) m) cols [].
+Definition mt_map1 (cs : list ((Z * dinfo) * list (Z * minfo))) : list ((Z * Z) * Z) :=
+  fold_left (fun m c => fold_left (fun m' t => set (fst (fst c), fst t) (snd (snd t)) m') (snd c) m) cs [].
 (** mtMap2: (class, MT) -> sum of the balances, in uint64 arithmetic *)
-Definition mt_map2 (bs : list ((Z * Z * Z) * Z)) : list ((Z * Z) * Z) :=
-  fold_left (fun m b => let k := (snd (fst (fst b)), snd (fst b)) in set k ((getz k m + snd b) mod two64) m) bs [].
+Definition step2 (m : list ((Z * Z) * Z)) (b : (Z * Z * Z) * Z) := set (bkey b) ((getz (bkey b) m + snd b) mod two64) m.
+Definition mt_map2 (bs : list ((Z * Z * Z) * Z)) : list ((Z * Z) * Z) := fold_left step2 bs [].
 
 Definition validate (g : genesis) : bool :=
   let known := map (fun c => fst (fst c)) (g_cols g) in
@@ -65,14 +62,14 @@ Definition validate (g : genesis) : bool :=
   && forallb (fun e => snd e =? getz (fst e) m2) m1.                          (* mt supply mismatch *)
 
 (** ** InitGenesis *)
-Definition add_col (acc : list (Z * dinfo) * list ((Z * Z) * minfo) * list (Z * Z) * Z)
-                   (c : (Z * dinfo) * list (Z * minfo)) :=
-  let '(ds, ms, dsup, seq) := acc in
+Definition old_mts (d : Z) (cs : list col) : list (Z * minfo) :=
+  match get d cs with Some x => snd x | None => [] end.
+Definition add_col (acc : list col * list (Z * Z) * Z) (c : (Z * dinfo) * list (Z * minfo)) :=
+  let '(cs, dsup, seq) := acc in
   let d := fst (fst c) in
-  let ds' := oins lt1 d (snd (fst c)) ds in
-  fold_left (fun '(ds0, ms0, dsup0, seq0) t =>
-               (ds0, oins lt2 (d, fst t) (snd t) ms0, oins lt1 d (getz d dsup0 + 1) dsup0, seq0 + 1))
-            (snd c) (ds', ms, dsup, seq).
+  (oins lt1 d (snd (fst c), fold_left (fun m t => oins lt1 (fst t) (snd t) m) (snd c) (old_mts d cs)) cs,
+   fold_left (fun ds (_ : Z * minfo) => oins lt1 d (getz d ds + 1) ds) (snd c) dsup,
+   seq + Z.of_nat (length (snd c))).
 
 (** IncreaseMTSupply / AddBalance: error (panic) on uint64 overflow *)
 Definition add_u64 {K} `{EqDec K} (ltb : K -> K -> bool) (k : K) (x : Z) (m : list (K * Z)) : option (list (K * Z)) :=
@@ -83,12 +80,12 @@ Fixpoint add_bals (bs : list ((Z * Z * Z) * Z)) (sup : list ((Z * Z) * Z)) (bal 
     : option (list ((Z * Z) * Z) * list ((Z * Z * Z) * Z)) :=
   match bs with
   | [] => Some (sup, bal)
-  | ((o, d, m), x) :: bs' =>
-      if o <? 0 then None                                       (* invalid owner address *)
-      else match add_u64 lt2 (d, m) x sup with
+  | b :: bs' =>
+      if fst (fst (fst b)) <? 0 then None                                       (* invalid owner address *)
+      else match add_u64 lt2 (bkey b) (snd b) sup with
            | None => None
            | Some sup' =>
-               match add_u64 lt3 (o, d, m) x bal with
+               match add_u64 lt3 (fst b) (snd b) bal with
                | None => None
                | Some bal' => add_bals bs' sup' bal'
                end
@@ -98,39 +95,40 @@ Fixpoint add_bals (bs : list ((Z * Z * Z) * Z)) (sup : list ((Z * Z) * Z)) (bal 
 Definition import (g : genesis) : option state :=
   if negb (validate g) then None
   else
-    let '(ds, ms, dsup, seq) := fold_left add_col (g_cols g) ([], [], [], 1) in
+    let '(cs, dsup, seq) := fold_left add_col (g_cols g) ([], [], 1) in
     match add_bals (g_bals g) [] [] with
     | None => None
-    | Some (sup, bal) => Some (mkState ds ms sup dsup bal (Z.of_nat (length (g_cols g)) + 1) seq)
+    | Some (sup, bal) => Some (mkState cs sup dsup bal (Z.of_nat (length (g_cols g)) + 1) seq)
     end.
 
 (** ** Queries: Denoms / Denom, MTs / MT (with current supply), MTSupply, Balances *)
-Definition view := (list (Z * dinfo) * list ((Z * Z) * (Z * Z)) * list ((Z * Z * Z) * Z))%type.
-Definition queries (s : state) : view :=
-  (denoms s,
-   map (fun e => (fst e, (fst (snd e), getz (fst e) (msupply s)))) (mts s),
-   bals s).
+Definition cur_cols (s : state) : list col :=
+  map (fun c => (fst c, (fst (snd c), exp_mts (msupply s) (fst c) (snd (snd c))))) (cols s).
+Definition view := (list col * list ((Z * Z) * Z) * list ((Z * Z * Z) * Z))%type.
+Definition queries (s : state) : view := (cur_cols s, msupply s, bals s).
 
 (** ** What reachable states look like *)
-Definition sum_bals (s : state) (k : Z * Z) : Z :=
-  zsum (map snd (filter (fun b => eqb (snd (fst (fst b)), snd (fst b)) k) (bals s))).
+Definition flat_keys (cs : list col) : list (Z * Z) := flat_map (fun c => map (fun t => (fst c, fst t)) (snd (snd c))) cs.
+(** the supply store as the balances determine it: one entry per (class, MT) that has a balance entry,
+    holding the sum of these balances *)
+Definition insS (m : list ((Z * Z) * Z)) (b : (Z * Z * Z) * Z) := oins lt2 (bkey b) (getz (bkey b) m + snd b) m.
+Definition sup_of (bs : list ((Z * Z * Z) * Z)) : list ((Z * Z) * Z) := fold_left insS bs [].
+Definition dsupply_of (cs : list col) : list (Z * Z) :=
+  flat_map (fun c => match snd (snd c) with [] => [] | _ => [(fst c, Z.of_nat (length (snd (snd c))))] end) cs.
+Definition count_mts (cs : list col) : Z := zsum (map (fun c => Z.of_nat (length (snd (snd c)))) cs).
 
 Definition invb (s : state) : bool :=
-  sortedb lt1 (denoms s) && sortedb lt2 (mts s) && sortedb lt2 (msupply s) && sortedb lt1 (dsupply s)
+  sortedb lt1 (cols s) && forallb (fun c => sortedb lt1 (snd (snd c))) (cols s)
+  (* supply entries exist exactly for the MTs (every MT has a balance entry, possibly zero, and every
+     balance belongs to an MT) and hold the sum of the balances, which fits uint64 *)
+  && sortedb lt2 (msupply s) && eqb (map fst (msupply s)) (flat_keys (cols s))
+  && eqb (msupply s) (sup_of (bals s)) && forallb (fun e => snd e <? two64) (msupply s)
   && sortedb lt3 (bals s)
-  (* every MT belongs to a class; supply and balance entries exist exactly for the MTs *)
-  && forallb (fun e => has (fst (fst e)) (denoms s)) (mts s)
-  && eqb (map fst (msupply s)) (map fst (mts s))
-  && forallb (fun b => has (snd (fst (fst b)), snd (fst b)) (mts s)) (bals s)
-  && forallb (fun e => existsb (fun b => eqb (snd (fst (fst b)), snd (fst b)) (fst e)) (bals s)) (mts s)
-  (* amounts are uint64, owners are addresses, the supply of an MT is the sum of its balances *)
   && forallb (fun b => (0 <=? snd b) && (snd b <? two64) && (0 <=? fst (fst (fst b)))) (bals s)
-  && forallb (fun e => (snd e =? sum_bals s (fst e)) && (snd e <? two64)) (msupply s)
   (* class supply = number of its MTs; sequences count the objects ever created *)
-  && forallb (fun e => getz (fst e) (dsupply s) =? Z.of_nat (length (filter (fun t => fst (fst t) =? fst e) (mts s)))) (denoms s)
-  && forallb (fun e => has (fst e) (denoms s) && (0 <? snd e)) (dsupply s)
-  && (dseq s =? Z.of_nat (length (denoms s)) + 1)
-  && (mseq s =? Z.of_nat (length (mts s)) + 1).
+  && eqb (dsupply s) (dsupply_of (cols s))
+  && (dseq s =? Z.of_nat (length (cols s)) + 1)
+  && (mseq s =? count_mts (cols s) + 1).
 
 (** ** Correspondence and the C12 predicate on the implementation's observations *)
 Record run := mkRun {
@@ -147,8 +145,8 @@ Definition corr_run (r : run) : bool :=
      | Some b => (r_imp r =? 0) && eqb (r_sB r) (Some b) && eqb (r_gB r) (Some (export b))
      end.
 
-(** clause codes: 1 export does not validate; 2 import panics; 3 second export differs (up to the
-    order of the owners part); 4 a class / MT / supply / balance reads differently on B;
+(** clause codes: 1 export does not validate; 2 import panics; 3 second export differs;
+    4 a class / MT / supply / balance reads differently on B;
     5 the sequences of B differ from A's (the next generated id would differ) *)
 Definition prop_run (r : run) : Z :=
   first_code
